@@ -159,7 +159,8 @@ def run(prop, tier, seed, plan, replay_dir=None, merge=False, full=False):
                       coverage=dict(states=max(states, 1), transitions=max(gen, 1), traces_validated_against_impl=explained,
                                     evaluations=total, distinct_nontrivial=total,
                                     rule="random concurrent programs (2-4 API goroutines x 6-15 calls on 3 overlapping paths, 2 file system goroutines, consumer pace fast/slow/"
-                                         "events-only/late, GOMAXPROCS 1/2/4/16, buffer 0/1/16), built with -race; every program is distinct (seeded) and non-trivial (concurrent calls); "
+                                         "events-only/late, GOMAXPROCS 1/2/4/16, buffer 0/1/16; one program in five is a 'duel': 20-50 rounds of Remove(p) against 1-3 Add(p) started together "
+                                         "while the reader is parked, bracketed by WatchList before and after the consumer catches up), built with -race; every program is distinct (seeded) and non-trivial (concurrent calls); "
                                          "modes: " + json.dumps(modes),
                                     programs_linearized=explained, samples=samples, exhaustive=False),
                       assumptions=["the race detector is the observation channel for 'no data races'; schedules are those the Go scheduler produced under -race",
